@@ -135,6 +135,8 @@ def ttlOps : LockOps TtlMap where
 
 inductive How where
   | normal | exc | cancel
+  | closed      -- `GeneratorExit` at the yield point of a `@locked` async generator: the consumer stopped iterating
+                -- (`break` + `aclose()`, `aclosing(...)`, or the abandoned generator finalised by the event loop)
   deriving DecidableEq, Repr
 
 /-- program counter of one activation of `lock()` (called a task; a real task that enters several
@@ -169,6 +171,34 @@ structure Health where
 
 def Health.ok : Health := ⟨true, true⟩
 
+/-! ### user middlewares (`cashews/helpers.py`, installed with `setup(..., middlewares=(...))`)
+
+A middleware sees every command before the backend does and may answer in its place.  `lock()` reads a
+`None` answer of `set_lock` as "locking is switched off" (that IS the meaning of the disable-control
+middleware, modelled by `Health.setLock`), so a user middleware must let the lock commands through. -/
+
+/-- the commands a middleware can tell apart (`cashews.commands.Command`) -/
+inductive CmdKind where
+  | set | setMany | setLock | unlock | isLocked | ping | other
+  deriving DecidableEq, Repr
+
+/-- the commands of the lock protocol -/
+def CmdKind.isLockCmd : CmdKind → Bool
+  | .setLock | .unlock | .isLocked | .ping => true
+  | _ => false
+
+/-- `helpers.memory_limit(min_bytes, max_bytes)`: does a command whose value(s) measure `sizes` bytes reach
+the backend?  (`False` = the middleware answers None itself.)
+    `if cmd == Command.SET_MANY: pairs = {those within the window}; if not pairs: return None`
+    `elif cmd == Command.SET: if max_bytes and size > max_bytes or size < min_bytes: return None`
+    `return await call(*args, **kwargs)` -/
+def memoryLimitPasses (minB : Nat) (maxB : Option Nat) (c : CmdKind) (sizes : List Nat) : Bool :=
+  let out (n : Nat) : Bool := (match maxB with | some m => m != 0 && n > m | none => false) || n < minB
+  match c with
+  | .setMany => sizes.any fun n => !out n
+  | .set => !(sizes.any out)
+  | _ => true
+
 inductive Act where
   | enter (t : Nat) (th : Nat) (key : Nat) (ttl : Option Nat) (wait : Bool)   -- thread `th` calls `lock()`
   | attempt (t : Nat)
@@ -183,6 +213,14 @@ inductive Act where
   | txSet (th : Nat) (k v : Nat)           -- `cache.set(<application key>, v)` by thread `th`
   | txEnd (th : Nat) (commit : Bool)       -- the block is left (commit / rollback)
   deriving Repr
+
+/-- `helpers.add_prefix(p)` / `helpers.all_keys_lower()`: the key a lock command reaches the backend with is
+a function of the key it was called with - the same function for `set_lock`, `unlock` and `is_locked`. -/
+def Act.mapKey (f : Nat → Nat) : Act → Act
+  | .enter t th key ttl wait => .enter t th (f key) ttl wait
+  | .foreignUnlock key n => .foreignUnlock (f key) n
+  | .probe key => .probe (f key)
+  | a => a
 
 inductive LOut where
   | unit
